@@ -153,6 +153,12 @@ func (c *Ctx) errorFlowRule(rule string, fn *ssa.Function, exc []ErrException, c
 			}
 		}
 		if errVal == nil || errVal.Referrers() == nil || len(nonDebugRefs(errVal)) == 0 {
+			// releasing a handle on a path that is ALREADY failing (or has just found the file gone) is a clean-up:
+			// the error that matters is the one being handled, a second one from Close has nowhere to go
+			if name == "(*os.File).Close" && onFailurePath(call.Block()) {
+				r.Ok(rule, construct+":cleanup", p.InstrPos(in), "Close on a path that already handles a failure (clean-up; its own error has nowhere to go)")
+				return
+			}
 			report(construct, p.InstrPos(in), "the error returned by "+name+" is discarded")
 			return
 		}
@@ -237,6 +243,7 @@ func (c *Ctx) errorFlowRule(rule string, fn *ssa.Function, exc []ErrException, c
 		checked := false
 		carried := false
 		tested := false
+		var condRet *ssa.Return
 		for _, v := range vals {
 			for _, ref := range nonDebugRefs(v) {
 				switch u := ref.(type) {
@@ -261,6 +268,22 @@ func (c *Ctx) errorFlowRule(rule string, fn *ssa.Function, exc []ErrException, c
 					rv := RetVals(u)
 					if fnReturnsErr && errIdx < len(rv) {
 						checked = true // returned directly
+						if u.Block() != in.Block() {
+							condRet = u
+						}
+					}
+				case *ssa.Call:
+					// a predicate of the repository that is nothing but the nil test (func failed(err error) bool { return err != nil })
+					if sc := u.Call.StaticCallee(); sc != nil && nilTestHelper(sc) && len(u.Call.Args) == 1 && u.Call.Args[0] == v {
+						for _, br := range nonDebugRefs(u) {
+							iff, ok := br.(*ssa.If)
+							if !ok {
+								continue
+							}
+							checked = true
+							tested = true
+							c.checkErrBranch(rule, fn, construct, iff.Block().Succs[0], iff.Block(), v, errS, errIdx, fnReturnsErr, report)
+						}
 					}
 				case *ssa.Store:
 					// stored into a result cell then returned: RetVals of the return resolves it
@@ -305,7 +328,12 @@ func (c *Ctx) errorFlowRule(rule string, fn *ssa.Function, exc []ErrException, c
 				}
 			}
 		}
-		if carried && !tested {
+		if c.errStrict && condRet != nil && !tested && !carried {
+			// "carries that failure": the error is returned, but only on one side of a branch that is not
+			// its own nil test — whatever the condition is (a classification of the error, a flag), a
+			// non-nil error on the other side is dropped and the caller is told nothing failed
+			report(construct, p.InstrPos(condRet), "the error returned by "+name+" is never tested against nil: it is returned only under another condition ("+p.InstrPos(condRet)+"), so a failure for which that condition does not hold is dropped and reported as success")
+		} else if carried && !tested {
 			report(construct, p.InstrPos(in), "the error returned by "+name+" is only stored in a variable that the next loop iteration overwrites: it is examined after the loop, so every failure but the last iteration's is lost")
 		} else if !checked {
 			report(construct, p.InstrPos(in), "the error returned by "+name+" is neither tested against nil nor returned")
@@ -323,6 +351,22 @@ func (c *Ctx) errorFlowRule(rule string, fn *ssa.Function, exc []ErrException, c
 		}
 	}
 	return n
+}
+
+// nilTestHelper: a one-parameter function with a body whose every return is "param != nil".
+func nilTestHelper(fn *ssa.Function) bool {
+	if fn.Blocks == nil || len(fn.Params) != 1 || fn.Signature.Results().Len() != 1 || len(fn.Blocks) != 1 {
+		return false
+	}
+	rets := Returns(fn)
+	if len(rets) != 1 {
+		return false
+	}
+	bo, ok := RetVals(rets[0])[0].(*ssa.BinOp)
+	if !ok || bo.Op != token.NEQ {
+		return false
+	}
+	return (bo.X == ssa.Value(fn.Params[0]) && isNilConst(bo.Y)) || (bo.Y == ssa.Value(fn.Params[0]) && isNilConst(bo.X))
 }
 
 func nonDebugRefs(v ssa.Value) []ssa.Instruction {
@@ -715,6 +759,38 @@ func callHasArg(call *ssa.Call, v ssa.Value) bool {
 	for _, a := range call.Call.Args {
 		if a == v || stripConv(a) == v {
 			return true
+		}
+	}
+	return false
+}
+
+// onFailurePath: the block is entered only through the failing side of a test of an error: `err != nil` (true
+// edge) or os.IsNotExist(err) / errors.Is(err, ..) (true edge).
+func onFailurePath(b *ssa.BasicBlock) bool {
+	for d := b; d != nil && d.Idom() != nil; d = d.Idom() {
+		cond, ts, fs := condOf(d.Idom())
+		if cond == nil {
+			continue
+		}
+		isErrT := func(v ssa.Value) bool {
+			n, ok := v.Type().(*types.Named)
+			return ok && n.Obj().Pkg() == nil && n.Obj().Name() == "error"
+		}
+		switch x := cond.(type) {
+		case *ssa.BinOp:
+			if (x.Op == token.NEQ || x.Op == token.EQL) && (isNilConst(x.X) || isNilConst(x.Y)) && (isErrT(x.X) || isErrT(x.Y)) {
+				edge := ts
+				if x.Op == token.EQL {
+					edge = fs
+				}
+				if edgeDominates(d.Idom(), edge, b) {
+					return true
+				}
+			}
+		case *ssa.Call:
+			if sc := x.Call.StaticCallee(); sc != nil && (sc.String() == "os.IsNotExist" || sc.String() == "errors.Is") && edgeDominates(d.Idom(), ts, b) {
+				return true
+			}
 		}
 	}
 	return false
